@@ -147,6 +147,10 @@ func sysC01(t *testing.T, prop string) {
 	size := uint64(vlib.Scale(48, 160)) << 20 // large: the faults must fall mid-stream
 	for i := 0; i < nSessions; i++ {
 		ss := &sockSess{tag: r.Uint64() | 1, lenUp: size / 2, lenDown: size}
+		if prop == "C20" {
+			// concurrent SOCKS connections with differing per-connection arguments
+			ss.args = []string{"max=1", "max=2;ice=stun:" + s.stunAddr}[i%2]
+		}
 		sessions = append(sessions, ss)
 		wg.Add(1)
 		go func(ss *sockSess) {
